@@ -31,6 +31,7 @@ class EnumWorld:
         a, b = z3.Ints("a_nm b_nm")
         ctx.assume(z3.ForAll([a, b], z3.Implies(z3.And(0 <= a, a < b, b < self.n), self.NAME(a) != self.NAME(b)),
                              patterns=[z3.MultiPattern(self.NAME(a), self.NAME(b))]))
+        self.GNAME = z3.Function(ctx.fresh_name("GNAME"), z3.IntSort(), STR)
         self.H = ClassVal("H", None, [base], {})
         self.G = ClassVal("G", None, [base], {})
         n = self.n
@@ -40,7 +41,9 @@ class EnumWorld:
         self.G.ns["indices"] = nparr.NArr(3, lambda i: B.wrap(B._z(i)), "uint8", "indices")
 
     def member(self, cls, idx):
-        return B.SymRec(cls, {"index": B.wrap(idx) if not isinstance(idx, int) else idx, "__owner__": cls.name})
+        nm = self.NAME if cls is self.H else self.GNAME
+        return B.SymRec(cls, {"index": B.wrap(idx) if not isinstance(idx, int) else idx, "__owner__": cls.name,
+                              "name": Opaque(nm(B._z(idx) if not isinstance(idx, int) else z3.IntVal(idx)), "name", {})})
 
 
 def is_member_of(v, cls):
@@ -410,3 +413,21 @@ class EnumArrayDecodeToStr(EnumArrayDecode):
 EnumArrayDecode.cases = (None,)
 
 CONTRACTS = [StrToIndex(), IntToIndex(), EnumToIndex(), EncodeArrayLike(), EncodeArray(), EnumEncode(), EnumArrayDecode(), EnumArrayDecodeToStr()]
+
+
+def _decl_judge(nat):
+    if nat.get("kind") == "harness-error":
+        return "undecided", str(nat)[:300]
+    if nat["kind"] == "raise":
+        return "violates", "raised " + nat.get("exc", "") + ": " + nat.get("msg", "")
+    return ("satisfies", "as specified") if nat["value"].get("ok") else ("violates", "; ".join(p["text"] for p in nat["value"].get("problems", []))[:600])
+
+
+NATIVE_STANDINS = [
+    {"name": "enumerations as declared: tables agree with member indices (aliases included), members / names / indices round-trip, members of another enumeration are refused",
+     "where": "EnumType.__new__ / __eq__ / __hash__, Enum.encode, EnumArray.decode (the enum metaclass machinery of the standard library is outside the verifier)",
+     "bound": "4 declarations (plain, alias in the middle, alias at the end, one member) x 3 routes + refusals + empty inputs; 4 pairs of distinct enumerations "
+              "(other / same class name x other / same member names) x 3 input shapes",
+     "calls": lambda tier: [{"callee": "EnumType", "script": NATIVE, "mode": "declarations"}],
+     "judge": _decl_judge},
+]
